@@ -1,7 +1,9 @@
 package checks
 
 import (
+	"bytes"
 	"encoding/hex"
+	"encoding/json"
 	"fmt"
 	"os"
 	"path/filepath"
@@ -10,6 +12,7 @@ import (
 
 	dbm "github.com/cometbft/cometbft-db"
 	"github.com/cometbft/cometbft/libs/log"
+	"github.com/cosmos/cosmos-sdk/codec"
 	"github.com/cosmos/cosmos-sdk/store/rootmulti"
 	storetypes "github.com/cosmos/cosmos-sdk/store/types"
 	sdk "github.com/cosmos/cosmos-sdk/types"
@@ -30,6 +33,7 @@ type c19Scenario struct {
 	name          string
 	setup         func(e *domEnv, w *world.World)
 	initialHeight int64 // genesis initial_height (0 = default 1)
+	mutate        func(gs map[string]json.RawMessage, cdc codec.Codec)
 }
 
 func c19Scenarios() []c19Scenario {
@@ -70,6 +74,21 @@ func c19Scenarios() []c19Scenario {
 			must(w, world.TxSpec{Msgs: []sdk.Msg{aoltypes.NewMsgDeleteWriter("a", e.W.Bech, e.A.Bech)}, Signers: s(e.A)})
 		}},
 		{name: "chain-continued-from-an-export(initial_height=1000)", setup: func(e *domEnv, w *world.World) {}, initialHeight: 1000},
+		// genesis-injected AOL owners with boundary address bytes (ending in 0xFF, all 0xFF, all 0x00, 32 bytes), several topics,
+		// DIDs with several tombstones: whatever repair / recount / migration an upgrade runs must leave them as they are
+		{name: "boundary-owner-addresses+tombstones(genesis)", setup: func(e *domEnv, w *world.World) {}, mutate: func(gs map[string]json.RawMessage, cdc codec.Codec) {
+			ff := append(bytes.Repeat([]byte{0x42}, 19), 0xFF)
+			in := &aolInject{Owners: [][]byte{ff, bytes.Repeat([]byte{0xFF}, 20), bytes.Repeat([]byte{0x00}, 20), bytes.Repeat([]byte{0xFF}, 32)}, Topics: []string{"a", "ab", "b"}}
+			in.mutate(gs, cdc)
+			k := newDidEnv()
+			docs := bulkDIDs(k, 9)
+			for i, did := range sortedKeys(docs) {
+				if i%3 == 1 {
+					docs[did] = &didtypes.DIDDocumentWithSeq{Document: &didtypes.DIDDocument{}, Sequence: uint64(1 + i)}
+				}
+			}
+			gs["did"] = cdc.MustMarshalJSON(&didtypes.GenesisState{Documents: docs})
+		}},
 		{name: "many-records", setup: func(e *domEnv, w *world.World) {
 			for i := 0; i < 5; i++ {
 				must(w, world.TxSpec{Msgs: []sdk.Msg{aoltypes.NewMsgAddRecordRequest("a", []byte{byte(i)}, []byte(strings.Repeat("v", i)), e.W.Bech, e.A.Bech, "")}, Signers: s(e.W)})
@@ -100,7 +119,7 @@ func c19Run(e *domEnv, sc c19Scenario, point string) (obs c19Obs, fail string) {
 	home := world.NewHome()
 	defer os.RemoveAll(home)
 	nUp := len(app.Upgrades)
-	oldOpts := world.Options{Accounts: []*world.Account{e.A, e.B, e.W, e.F}, Home: home, DB: dbm.NewMemDB(), Upgrades: nUp - 1, InitialHeight: sc.initialHeight}
+	oldOpts := world.Options{Accounts: []*world.Account{e.A, e.B, e.W, e.F}, Home: home, DB: dbm.NewMemDB(), Upgrades: nUp - 1, InitialHeight: sc.initialHeight, Mutate: sc.mutate}
 	w := populatedOpts(e, oldOpts)
 	sc.setup(e, w)
 	H := w.Height + 2
